@@ -130,6 +130,11 @@ def run(chk):
             good = m1 and m2
         if d["vm"] != ("undef" if d["spec"] == "undef" else d["spec"]):
             good = False
+        UNDEF = -1483400188077313          # YR_UNDEFINED = 0xFFFABADAFABADAFF read as int64
+        if not good and UNDEF in (a, b) and (not m1) and (not m2):
+            chk.violation("undefined-sentinel-value", "an integer external holding the value 0xFFFABADAFABADAFF (-1483400188077313) is treated as undefined: "
+                          "%d %s %d is undefined at run time" % (a, OPS[op], b), replay)
+            continue
         if not good:
             chk.violation("vm:" + op, "run-time value of %d %s %d: implementation eq=%s defined=%s, generated VM model %s, documented %s"
                           % (a, OPS[op], b, m1, m2, d["vm"], d["spec"]), replay)
@@ -254,6 +259,10 @@ def fastmode_trees(chk, hscan, K):
                           "for any of them : ( $ in (%d..%d) )" % (lo, lo + 6), "#_s0 == 2", "@_s01[2] == %d" % lo,
                           "all of them in (%d..%d)" % (lo, lo + 12)])
         src += "rule aimed { strings: %s condition: %s }\n" % (decl, aimed)
+        # a string split into chained pieces, used only as `$c`: a head (or middle piece) that is never completed precedes the real occurrence
+        gap = r.choice([201, 250, 300])
+        src += "rule chain2 { strings: $c = { 51 52 53 54 [0-%d] 55 56 57 58 } condition: $c }\n" % gap
+        src += "rule chain3 { strings: $c = { 51 52 53 54 [0-%d] 61 62 63 64 [0-%d] 55 56 57 58 } condition: $c }\n" % (gap, gap)
         size = r.choice([12, 24, 40])
         buf = bytearray(r.choice(b" .-") for _ in range(size))
         for s_ in strs:
@@ -264,6 +273,9 @@ def fastmode_trees(chk, hscan, K):
             for _ in range(r.range(0, 4)):        # several occurrences: the first one is often outside a tested range
                 p_ = r.below(size - len(s_) + 1)
                 buf[p_:p_ + len(s_)] = s_
+        if r.chance(1, 2):
+            decoy = b"QRST" + (b"abcd" if r.chance(1, 2) else b"")
+            buf += b"~" + decoy + b"." * (gap + r.choice([5, 200])) + b"QRST" + b"." * r.below(9) + b"abcd" + b"." * r.below(9) + b"UVWX" + b"~"
         buf = bytes(buf)
         cases.append(("f%d" % i, ["newcompiler"] + ["defi ext%d %d" % (j, r.range(-2, 12)) for j in range(3)] +
                       ["add " + hx(src.encode()), "getrules", "scanner 0", "scan " + hx(buf),
